@@ -33,6 +33,7 @@ type jsCase struct {
 	// oracle side (not used by the drivers)
 	Want      string `json:"want"`      // expected result: a string, "true"/"false", or "error:" (any string with that prefix)
 	Malformed bool   `json:"malformed"` // expected "error:"; followed by a known-answer probe
+	OrError   bool   `json:"or_error"`  // a number with a fractional part: the answer is Want (the truncation's answer) or an "error:" string
 	Note      string `json:"note"`
 	Expected  string `json:"expected,omitempty"`
 	Submitted string `json:"submitted,omitempty"`
@@ -88,10 +89,35 @@ func c20Cases(c *Ctx, n int) []jsCase {
 	rng := c.RNG.Fork(20)
 	var out []jsCase
 	id := 0
+	frng := c.RNG.Fork(2020)
 	add := func(k jsCase) {
 		id++
 		k.ID = id
 		out = append(out, k)
+		if k.Malformed || k.Note == "fractional counter" || frng.Intn(8) != 0 {
+			return
+		}
+		// the same call with a fractional part on one numeric argument (counter, timestamp, skew or period): a number
+		// between two integers is outside the native domain, so the binding may refuse it ('error:') or treat it
+		// as its integer part; it must not answer with a different code or verdict
+		var nums []int
+		for i, a := range k.Args {
+			if a.T == "n" && a.N >= 0 && a.N < 1<<40 && a.N == float64(uint64(a.N)) {
+				nums = append(nums, i)
+			}
+		}
+		if len(nums) == 0 {
+			return
+		}
+		f := k
+		f.Args = append([]jsArg(nil), k.Args...)
+		j := nums[frng.Intn(len(nums))]
+		f.Args[j].N += []float64{0.5, 0.9, 0.25, 0.999}[frng.Intn(4)]
+		f.OrError = true
+		f.Note = fmt.Sprintf("fractional part on argument %d; %s", j, k.Note)
+		id++
+		f.ID = id
+		out = append(out, f)
 	}
 	key0 := []byte("12345678901234567890")
 	probe := func() {
@@ -111,10 +137,10 @@ func c20Cases(c *Ctx, n int) []jsCase {
 			arg := float64(ctr)
 			note := ""
 			if rng.Intn(6) == 0 && ctr < 1<<40 {
-				arg += 0.9 // fractional numbers behave as their truncation
+				arg += 0.9 // a fractional number is refused or behaves as its integer part
 				note = "fractional counter"
 			}
-			add(jsCase{Fn: "generateHOTP", Args: []jsArg{sArg(sec), nArg(arg), sArg(ds), sArg(as)}, Want: ref.HOTP(key, ctr, d, a), Note: note})
+			add(jsCase{Fn: "generateHOTP", Args: []jsArg{sArg(sec), nArg(arg), sArg(ds), sArg(as)}, Want: ref.HOTP(key, ctr, d, a), Note: note, OrError: note != ""})
 		case 1:
 			ts := jsCounter(rng)
 			period := uint64(1 + rng.Intn(3600))
@@ -374,7 +400,12 @@ func judgeJS(c *Ctx, k jsCase, path string, got jsVal) {
 		if !(got.T == "s" && strings.HasPrefix(got.S, "error:")) {
 			v("malformed-not-rejected", "a malformed call is not answered with a string starting with 'error:'")
 		}
+	case k.OrError && got.T == "s" && strings.HasPrefix(got.S, "error:"):
+		r.Count("fractional_numbers_refused", 1)
 	case g != k.Want:
+		if k.OrError {
+			r.Count("fractional_numbers_judged", 1)
+		}
 		cls := "differs-from-native"
 		if strings.HasPrefix(k.Fn, "validate") {
 			cls = "verdict-differs-from-native"
